@@ -44,6 +44,7 @@ def any_shared_pull(sc):
 
 
 SHARED = "shared-pull-component-merges-requests"
+SHARED_DTP = "shared-pull-component-interleaves-delay-to-pull"
 
 
 def e1_known_sig(sc, v):
@@ -52,10 +53,20 @@ def e1_known_sig(sc, v):
     links whose merged request stream, as observed in this run, went backwards in time or carried duplicates into
     a stateful adapter.  Silent wrong values, wrong schedules or wrong request times are never excused."""
     comp = v.get("comp") or ""
-    if not comp or not shared_pull_upstream(sc, comp) or v.get("shared_ctx") not in ("nonmono", "dup-stateful"):
+    if not comp or not shared_pull_upstream(sc, comp):
         return None
     o, k = v["oracle"], v.get("kind")
     timeerr = k == "FinamTimeError"
+    if v.get("shared_ctx") == "interleaved-delay-pull":
+        # second shape of the same root cause: the requests of two consumer links reach one pull-counting
+        # DelayToPull through the shared component; the first pull of an update advances the adapter's pull
+        # window, the second is then shifted to a later time than the one the driver checked.  Only the
+        # failing pull itself is covered.
+        if o in ("update-raises", "run-raises", "weighted-sum", "extrapolating-get") and (timeerr or o == "extrapolating-get"):
+            return SHARED_DTP
+        return None
+    if v.get("shared_ctx") not in ("nonmono", "dup-stateful"):
+        return None
     # SumOverTime hands on None when the merged request stream makes its integration interval empty or negative
     none_sum = k in ("AttributeError", "TypeError") and "NoneType" in v.get("msg", "")
     if o in ("update-raises", "run-raises", "weighted-sum") and timeerr:
